@@ -677,8 +677,8 @@ SequenceOfLabelsGetSize(const uint8_t *buf, size_t buf_size, size_t *name_len_re
 		switch((label & SEQ_LABEL_CTRL_MASK)){
 		case SEQ_LABEL_CTRL_LEN:		//00------ // RFC 1035 4.1.4: // 6 bit - label len, see SEQ_LABEL_DATA_MASK
 			label &= SEQ_LABEL_DATA_MASK;// now it contain len
-			if ((cur_pos + label) > max_pos)
-				return (EBADMSG); /* Out of buf range. */
+			if ((cur_pos + label) >= max_pos && 0 != label)
+				return (EBADMSG); /* Out of buf range / no space for end label. */
 			if (0 == label) { // null label = end of name, ALL DONE!!!
 				(*name_len_ret) = (size_t)(cur_pos - buf);
 				return (0);
@@ -690,6 +690,8 @@ SequenceOfLabelsGetSize(const uint8_t *buf, size_t buf_size, size_t *name_len_re
 			(*name_len_ret) = (size_t)(cur_pos - buf);
 			return (0);// XXX if its wrong, then error will be generated in other place
 		case SEQ_LABEL_CTRL_COMPRESSED: //11------ // RFC 1035 4.1.4: 14 bits = offset from the start of the message
+			if (cur_pos >= max_pos)
+				return (EBADMSG); /* Low offset byte is out of buf range. */
 			(*name_len_ret) = (size_t)((cur_pos - buf) + 1); // 1 = 1 offset byte (low 8 bits of offset)
 			return (0);
 		}
@@ -724,10 +726,10 @@ SequenceOfLabelsToDomainName(const uint8_t *buf, size_t buf_size, uint8_t *name,
 		label &= SEQ_LABEL_DATA_MASK;// now it contain len
 		cur_pos ++; // now it points to data
 
-		if ((cur_pos + label) > max_pos)
-			return (EBADMSG); /* Out of buf range. */
+		if ((cur_pos + label) >= max_pos && 0 != label)
+			return (EBADMSG); /* Out of buf range / no space for end label. */
 		if (0 == label) { // null label = end of name, ALL DONE!!!
-			if (0 != (cur_pos - buf)) { // clear last dot
+			if (1 != (cur_pos - buf)) { // clear last dot (root name has no dot)
 				name --;
 			}
 			(*name) = 0; // set zero at the end
